@@ -99,6 +99,9 @@ def verify_contract(eng, c, prop, self_cls=None, skip_ids=None):
                 rep.obligations.append(o)
             rep.unchecked_implicit += run.unchecked_implicit
             rep.assumptions |= run.assumptions_used
+            if run.uses_strlib or run.rev_pairs or run.zfill_terms:
+                from . import strings
+                rep.assumptions.add(strings.ASSUMPTION_TEXT)
             pending.extend(run.alternatives)
     except Unsupported as ex:
         rep.status = "unsupported"
